@@ -4,6 +4,7 @@
 package main
 
 import (
+	"encoding/json"
 	"errors"
 	"flag"
 	"fmt"
@@ -533,7 +534,7 @@ func runCalls(s partSpec, calls []call) ([]call, *cf.Monitor) {
 		m := &sarama.ProducerMessage{Topic: "t", Key: mkKey(c.Key), Partition: c.MPart}
 		if isHashKind(s.Kind) && c.Key.Kind == "nil" && sarama.VerifC17FallbackCycle(p) {
 			c.Obs, c.kind = "Diverge", 3
-			setMon("fallback:self-recursion", "WithCustomFallbackPartitioner ignored its argument (hp.random == hp): Partition() on a keyless message would recurse forever")
+			setMon("c17:fallback-self-recursion", "WithCustomFallbackPartitioner ignored its argument (hp.random == hp): Partition() on a keyless message would recurse forever")
 			continue
 		}
 		v, err, pan := callPartition(p, m, c.N)
@@ -778,7 +779,7 @@ func runRoute(b *sarama.MockBroker, s partSpec, tm topicMeta, msgs []rmsg) ([]rm
 		m := &sarama.ProducerMessage{Topic: "t", Key: mkKey(x.Key), Partition: x.MPart}
 		if isHashKind(s.Kind) && x.Key.Kind == "nil" && sarama.VerifC17FallbackCycle(p) {
 			x.Obs = "RDiverge"
-			setMon("fallback:self-recursion", "WithCustomFallbackPartitioner ignored its argument (hp.random == hp): a keyless message would recurse forever")
+			setMon("c17:fallback-self-recursion", "WithCustomFallbackPartitioner ignored its argument (hp.random == hp): a keyless message would recurse forever")
 			continue
 		}
 		before := 0
@@ -801,6 +802,9 @@ func runRoute(b *sarama.MockBroker, s partSpec, tm topicMeta, msgs []rmsg) ([]rm
 		switch {
 		case pan:
 			x.Obs = "RPanic"
+			if !(isHashKind(s.Kind) && x.Key.Kind == "nil" && keylessServer(s) == nil) {
+				setMon("route:panic", fmt.Sprintf("partitionMessage panicked instead of routing or failing the message (partitioner %s, key %s)", s.Kind, x.Key.Kind))
+			}
 		case rerr != nil:
 			x.Obs = cf.App("RErr", cf.Z(errID(rerr)))
 			if m.Partition != x.MPart {
@@ -914,9 +918,26 @@ func runProducer(s partSpec, tm topicMeta, msgs []dmsg) ([]dmsg, [][2]int64, *cf
 		for i := range msgs {
 			msgs[i].Part = msgs[i].MPart
 		}
-		return msgs, nil, &cf.Monitor{Signature: "fallback:self-recursion", What: "WithCustomFallbackPartitioner ignored its argument (hp.random == hp): a keyless message would recurse forever"}, nil
+		return msgs, nil, &cf.Monitor{Signature: "c17:fallback-self-recursion", What: "WithCustomFallbackPartitioner ignored its argument (hp.random == hp): a keyless message would recurse forever"}, nil
 	}
-	conf.Producer.Partitioner = func(string) sarama.Partitioner { return p }
+	var mon *cf.Monitor
+	var monMu sync.Mutex
+	setMon := func(sig, what string) {
+		monMu.Lock()
+		if mon == nil {
+			mon = &cf.Monitor{Signature: sig, What: what}
+		}
+		monMu.Unlock()
+	}
+	// a panic inside the topic producer's goroutine would kill the harness: turn it into an error + monitor failure
+	g := guard{p, func(n int32) {
+		setMon("dispatch:partitioner-panic", fmt.Sprintf("Partition() panicked inside the producer (numPartitions=%d)", n))
+	}}
+	if _, ok := p.(sarama.DynamicConsistencyPartitioner); ok {
+		conf.Producer.Partitioner = func(string) sarama.Partitioner { return guardDyn{g} }
+	} else {
+		conf.Producer.Partitioner = func(string) sarama.Partitioner { return g }
+	}
 	prod, err := sarama.NewAsyncProducer([]string{b.Addr()}, conf)
 	if err != nil {
 		return nil, nil, nil, err
@@ -924,12 +945,6 @@ func runProducer(s partSpec, tm topicMeta, msgs []dmsg) ([]dmsg, [][2]int64, *cf
 	byID := map[int64]*dmsg{}
 	for i := range msgs {
 		byID[msgs[i].ID] = &msgs[i]
-	}
-	var mon *cf.Monitor
-	setMon := func(sig, what string) {
-		if mon == nil {
-			mon = &cf.Monitor{Signature: sig, What: what}
-		}
 	}
 	got := map[int64]int{}
 	for i := range msgs {
@@ -1002,6 +1017,28 @@ func runProducer(s partSpec, tm topicMeta, msgs []dmsg) ([]dmsg, [][2]int64, *cf
 	return msgs, seen, mon, nil
 }
 
+type guard struct {
+	p       sarama.Partitioner
+	onPanic func(n int32)
+}
+
+func (g guard) Partition(m *sarama.ProducerMessage, n int32) (v int32, err error) {
+	defer func() {
+		if recover() != nil {
+			g.onPanic(n)
+			v, err = -1, errors.New("partitioner panicked")
+		}
+	}()
+	return g.p.Partition(m, n)
+}
+func (g guard) RequiresConsistency() bool { return g.p.RequiresConsistency() }
+
+type guardDyn struct{ guard }
+
+func (g guardDyn) MessageRequiresConsistency(m *sarama.ProducerMessage) bool {
+	return g.p.(sarama.DynamicConsistencyPartitioner).MessageRequiresConsistency(m)
+}
+
 func dispatchSafe(s partSpec) bool { // no partitioner that can panic inside the producer's goroutines
 	if s.Kind == "custom" {
 		for _, o := range s.Opts {
@@ -1026,9 +1063,30 @@ func main() {
 	out := flag.String("out", ".", "output directory")
 	seed := flag.Int64("seed", 1, "seed")
 	n := flag.Int("n", 300, "number of random direct-call cases (routing cases: n*2/3, producer cases: n/8)")
+	replay := flag.String("replay", "", "replay file (evidence/replay/C17-*.json): re-run exactly that case")
 	flag.Parse()
 	sarama.Logger = nopLogger{}
 	initKeys()
+	var rp struct {
+		Case *struct {
+			Partitioner partSpec   `json:"partitioner"`
+			Calls       []call     `json:"calls"`
+			Meta        *topicMeta `json:"meta"`
+			Msgs        json.RawMessage `json:"msgs"`
+			Broker      *[][2]int64 `json:"broker"`
+		} `json:"case"`
+	}
+	if *replay != "" {
+		raw, err := os.ReadFile(*replay)
+		if err == nil {
+			err = json.Unmarshal(raw, &rp)
+		}
+		if err != nil || rp.Case == nil {
+			fmt.Fprintln(os.Stderr, "cannot read replay file:", err)
+			os.Exit(2)
+		}
+		*n = 0
+	}
 	r := rand.New(rand.NewSource(*seed))
 	imports := "From SV Require Import C17.Model C17.Corr."
 	wp := &cf.Writer{Dir: *out, Prefix: "cases_part", Imports: imports, CaseType: "pcase", MismatchFn: "mismatches_p", ShardSize: 250}
@@ -1068,6 +1126,12 @@ func main() {
 			corpus = append(corpus, pc{s, cs})
 		}
 	}
+	if rp.Case != nil {
+		corpus = nil
+		if rp.Case.Calls != nil {
+			corpus = []pc{{rp.Case.Partitioner, rp.Case.Calls}}
+		}
+	}
 	for i := 0; i < len(corpus)+*n; i++ {
 		var s partSpec
 		var cs []call
@@ -1099,6 +1163,22 @@ func main() {
 		{partSpec{Kind: "random"}, topicMeta{Known: true, Parts: []partMeta{{1, true}, {3, true}}}, []rmsg{{Key: keySpec{Kind: "nil"}}}},
 		{partSpec{Kind: "hash"}, topicMeta{Known: true, Parts: []partMeta{}}, []rmsg{{Key: keySpec{Kind: "nil"}}, {Key: keySpec{Kind: "bytes", Bytes: []byte("a")}}}},
 	}
+	var dreplay []dmsg
+	if rp.Case != nil {
+		rcorpus = nil
+		if rp.Case.Meta != nil && rp.Case.Broker == nil {
+			var ms []rmsg
+			if err := json.Unmarshal(rp.Case.Msgs, &ms); err != nil {
+				panic(err)
+			}
+			rcorpus = []rc{{rp.Case.Partitioner, *rp.Case.Meta, ms}}
+		}
+		if rp.Case.Meta != nil && rp.Case.Broker != nil {
+			if err := json.Unmarshal(rp.Case.Msgs, &dreplay); err != nil {
+				panic(err)
+			}
+		}
+	}
 	nr := *n * 2 / 3
 	for i := 0; i < len(rcorpus)+nr; i++ {
 		var c rc
@@ -1117,19 +1197,28 @@ func main() {
 
 	// ---- producer
 	nd := *n / 8
+	if dreplay != nil {
+		nd = 1
+	}
 	for i := 0; i < nd; i++ {
-		s := genPart(r, true)
-		for !dispatchSafe(s) {
-			s = genPart(r, true)
-		}
-		tm := genMeta(r)
+		var s partSpec
+		var tm topicMeta
 		var ms []dmsg
-		for j, k := 0, 2+r.Intn(6); j < k; j++ {
-			key := genKey(r)
-			if r.Intn(3) == 0 {
-				key = keySpec{Kind: "nil"}
+		if dreplay != nil {
+			s, tm, ms = rp.Case.Partitioner, *rp.Case.Meta, dreplay
+		} else {
+			s = genPart(r, true)
+			for !dispatchSafe(s) {
+				s = genPart(r, true)
 			}
-			ms = append(ms, dmsg{ID: int64(j + 1), Key: key, MPart: int32(r.Intn(8) - 1)})
+			tm = genMeta(r)
+			for j, k := 0, 2+r.Intn(6); j < k; j++ {
+				key := genKey(r)
+				if r.Intn(3) == 0 {
+					key = keySpec{Kind: "nil"}
+				}
+				ms = append(ms, dmsg{ID: int64(j + 1), Key: key, MPart: int32(r.Intn(8) - 1)})
+			}
 		}
 		ms, seen, mon, err := runProducer(s, tm, ms)
 		if err != nil {
